@@ -132,6 +132,13 @@ def run(chk):
         ('ignore Space = {Space}/[ ]+/\nstart = (Word | Checked)+\nWord = {Word}/[ab]+/\n'
          'Checked = {Checked}(Backtrack(1) >> Space >> "-" >> Word)\n',
          ['a b', 'ab -a b', 'a  -b -a', ' a', 'a - b', 'ab -ab  -b '], 5),
+        # alias rules (a rule whose whole body is another rule's name): the target is reached at the same position
+        # through two aliases and directly; only the target carries a probe, the aliases stay bare
+        ('start = ((Key << "=") | (Label << ":") | Word)+\nKey = Word\nLabel = Word\nWord = {Word}/[ab]+/\n',
+         ['ab', 'ab=', 'ab:', 'a=b:ab', 'ab:a', 'b;'], 4),
+        ('start = E1\nE1 = [A1, "+", E1] | [B1, "-", E1] | T\nA1 = T\nB1 = T\n'
+         'T = {T}(("(" >> E1 << ")") | "a")\n',
+         ['a', '(a)', '((a))', '(((a+a)))', '((a)-(a))+a', '((((a))))'], 5),
     ]
     # In a grammar with ignore declarations a probe must not be a literal (a literal is followed by the skip, and
     # an empty-matching literal inside an ignored rule would re-enter _ignored at the same position).  There the
@@ -144,7 +151,7 @@ def run(chk):
         plain_desc = tmpl
         with_ignore = 'ignore ' in tmpl
         probed = (HEADPOS if with_ignore else HEAD) + tmpl
-        for nm in ('Name', 'Group', 'Space', 'Word', 'Checked'):
+        for nm in ('Name', 'Group', 'Space', 'Word', 'Checked', 'T'):
             plain_desc = plain_desc.replace('{%s}' % nm, '')
             probed = probed.replace('{%s}' % nm, (PRPOS if with_ignore else PR) % nm)
         tcases.append({'id': len(tcases), 'desc': plain_desc, 'cfg': {}, 'runs': [['start', T(x), 0] for x in inputs],
